@@ -308,7 +308,7 @@ def base_frames(draw, max_dims=3, max_len=3, header_styles=("name", "letter"), k
     if len(letters) >= 2 and draw(st.booleans()):
         wide = draw(st.sampled_from(letters))
         d = build.udim(U, wide)
-        if d.get("dtype") is None and isinstance(d["items"][0], int):
+        if d.get("dtype") is None and all(isinstance(i, int) for i in d["items"]):
             wide = None
     rest = [l for l in letters if l != wide]
     layout = {
